@@ -35,7 +35,8 @@ func main() {
 	must := []string{
 		"data_responses_seen", "refusals_checked", "drain_acks_checked_for_quiescence", "pipelined_commands_handled",
 		"pause_acks_with_work_frozen_inside", "Drain_taken_with_work_in_flight", "resets_with_work_inside_the_agent",
-		"requests_queued_during_pause_served_after_enable", "commands_with_filter",
+		"requests_queued_during_pause_served_after_enable", "commands_with_filter", "writebacks_sent_below_during_a_flush",
+		"responses_to_requests_that_were_on_the_wire_at_a_reset",
 	}
 	for _, a := range agentNames {
 		must = append(must, "all_18_verb_x_state_pairs_covered:"+short(a))
